@@ -6,6 +6,8 @@ Model: Model/Level2.lean (`level1` = getBH_level1's frame change, `leafB`, `sumT
 The local field function `F` is arbitrary: the theorems hold for every source class.
 -/
 import MagpyVerif.Lemmas.Level2Compose
+import Mathlib.Algebra.GroupWithZero.Action.Units
+import Mathlib.Algebra.Ring.Int.Units
 namespace MagpyVerif.C03
 open MagpyVerif MagpyVerif.Level2
 variable {G V : Type}
@@ -40,5 +42,86 @@ theorem covariance_with_sensor [BEq G] [LawfulBEq G] (flipX : V → V) (Q : G) (
   apply List.map_congr_left
   intro x _
   exact specValue_moved flipX Q t e e' hl k hk m x
+
+
+/-! ### end-to-end statements about the pipeline model `Model/Level2.tensor` (what the driver executes and the
+`level2` stream compares with `getBH_level2`); `covariance` / `covariance_with_sensor` above are statements about
+the per-entry sum `sumT ∘ leafB` resp. the specification value `specValue`, these two are about `tensor` itself -/
+section e2e
+variable [BEq G] [LawfulBEq G]
+
+/-- **C03 end to end, Sensor observers**: the whole marshalling pipeline (`Model/Level2.tensor`, what
+`getBH_level2` computes before pixel_agg / sumup / squeeze) returns the very same tensor when every source
+entry (bare or nested to any depth) and every sensor is moved by one rigid motion along its whole path. -/
+theorem covariance_end_to_end (flipX : V → V) (Q : G) (t : V) (entries : List (Entry G V))
+    (sensors : List (Sens G V)) (he : ∀ e ∈ entries, e.leaves ≠ []) (hs : ∀ k ∈ sensors, k.WF) :
+    tensor flipX (entries.map (Entry.moved Q t)) (sensors.map (Sens.moved Q t)) =
+      tensor flipX entries sensors := by
+  have hs' : ∀ k ∈ sensors.map (Sens.moved Q t), k.WF := by
+    intro k h
+    obtain ⟨k0, h0, rfl⟩ := List.mem_map.mp h
+    exact Sens.moved_WF Q t k0 (hs k0 h0)
+  rw [tensor_eq_spec _ _ _ (moved_leaves_ne_nil Q t entries he) hs', tensor_eq_spec _ _ _ he hs]
+  unfold specTensor
+  rw [flatMap_leaves_moved, pathLen_moved, List.map_map]
+  apply List.map_congr_left
+  intro e _
+  apply List.map_congr_left
+  intro m _
+  rw [List.map_map]
+  apply List.map_congr_left
+  intro k hk
+  simp only [Function.comp]
+  rw [pixPos_moved, List.map_map]
+  apply List.map_congr_left
+  intro x _
+  exact specValue_moved flipX Q t e (e.moved Q t) (Entry.moved_leaves Q t e) k (hs k hk).1 m x
+
+/-- **C03 end to end, position observers** (the property's literal statement): moving every source entry
+(bare or nested, whole paths) and every observer position by one rigid motion `x ↦ Q x + t` rotates every
+vector of the tensor the pipeline returns by `Q` and changes nothing else (same shape, same order). -/
+theorem covariance_positions_end_to_end (flipX : V → V) (Q : G) (t : V) (entries : List (Entry G V))
+    (X : List V) (he : ∀ e ∈ entries, e.leaves ≠ []) :
+    tensor flipX (entries.map (Entry.moved Q t)) [obsSensor (X.map fun x => Q • x + t)] =
+      (tensor flipX entries [obsSensor X]).map (List.map (List.map (List.map (Q • ·)))) := by
+  have hw : ∀ (Y : List V), ∀ k ∈ [obsSensor (G := G) Y], k.WF := by
+    intro Y k hk
+    rw [List.mem_singleton.mp hk]
+    exact obsSensor_WF Y
+  rw [tensor_eq_spec _ _ _ (moved_leaves_ne_nil Q t entries he) (hw _), tensor_eq_spec _ _ _ he (hw _)]
+  unfold specTensor
+  have hpl : pathLen ((entries.map (Entry.moved Q t)).flatMap Entry.leaves)
+      [obsSensor (G := G) (X.map fun x => Q • x + t)] =
+      pathLen (entries.flatMap Entry.leaves) [obsSensor (G := G) X] := by
+    rw [flatMap_leaves_moved]
+    unfold pathLen
+    simp [List.map_map, Function.comp_def, Src.moved, obsSensor]
+  rw [hpl, List.map_map, List.map_map]
+  apply List.map_congr_left
+  intro e _
+  simp only [Function.comp, List.map_map]
+  apply List.map_congr_left
+  intro m _
+  simp only [Function.comp, List.map_cons, List.map_nil, pixPos_obsSensor, List.map_map]
+  congr 1
+  apply List.map_congr_left
+  intro x _
+  simp only [Function.comp, specValue_obsSensor, Entry.moved_leaves, List.map_map]
+  rw [← sum_map_smul, List.map_map]
+  congr 1
+  apply List.map_congr_left
+  intro s _
+  exact level1_covariant Q t s m x
+end e2e
+
+-- non-vacuity WITH the algebraic hypotheses instantiated (the example above evaluates the model on the driver's
+-- carrier `M3 Int`, which is not a `Group`): the group {1, -1} = ℤˣ acting on ℤ by multiplication (the reflection
+-- group in one dimension), a nested entry with paths of length 2 and 1, a left-handed two-step sensor; all
+-- hypotheses of `covariance_end_to_end` hold
+example : ∃ (entries : List (Entry ℤˣ ℤ)) (sensors : List (Sens ℤˣ ℤ)),
+    (∀ e ∈ entries, e.leaves ≠ []) ∧ (∀ k ∈ sensors, k.WF) ∧ entries ≠ [] ∧ sensors ≠ [] :=
+  ⟨[.coll [.leaf ⟨[3, 4], [1, -1], fun x => x + 1⟩, .coll [.leaf ⟨[0], [1], fun x => 2 * x⟩]]],
+   [⟨[7, 8], [-1, 1], [0, 1], [2], true⟩],
+   by simp [Entry.leaves], by simp [Sens.WF, pixNum], by simp, by simp⟩
 
 end MagpyVerif.C03
